@@ -90,8 +90,10 @@ theorem stepOutcome_doneRun_iff (p : Pipe) (w : World) (fails missing : Nat → 
   · simp [St.done]
   · split
     · split
-      · cases fails i <;> simp [St.done]
       · simp [St.done]
+      · split
+        · cases fails i <;> simp [St.done]
+        · simp [St.done]
     · simp [St.done]
 
 theorem never_not_ran (p : Pipe) (w : World) (fails missing : Nat → Bool) (σ : Nat → St) (i : Nat)
@@ -196,26 +198,49 @@ theorem ran_inv (p : Pipe) (w : World) (fails missing : Nat → Bool) (σ : Nat 
     Bool.false_and] at h
   split at h
   · split at h
-    · rename_i hd
-      rw [decideRun_iff, rc_always] at hd
-      rcases hd with hd | hd | hd | hd
-      · exact Or.inl hd
-      · exact Or.inr (Or.inl hd)
-      · exact Or.inr (Or.inr hd)
-      · cases hd
     · cases h
+    · split at h
+      · rename_i hd
+        rw [decideRun_iff, rc_always] at hd
+        rcases hd with hd | hd | hd | hd
+        · exact Or.inl hd
+        · exact Or.inr (Or.inl hd)
+        · exact Or.inr (Or.inr hd)
+        · cases hd
+      · cases h
   · cases h
+
+/-- A started step has all its watched resources on disk. -/
+theorem ran_present (p : Pipe) (w : World) (fails missing : Nat → Bool) (σ : Nat → St) (i : Nat)
+    (h : (stepOutcome p w fails missing σ i).ran = true) : ownAbsent w (p.step i) = false := by
+  cases ha : ownAbsent w (p.step i) with
+  | false => rfl
+  | true =>
+    unfold stepOutcome at h
+    simp only [ha, if_true] at h
+    split at h
+    · cases h
+    · split at h <;> cases h
+
+/-- A step that compares its dependencies (not `never`) and watches an absent resource ends `Broken`. -/
+theorem absent_broken (p : Pipe) (w : World) (fails missing : Nat → Bool) (σ : Nat → St) (i : Nat)
+    (hn : (p.step i).mode ≠ .never) (ha : ownAbsent w (p.step i) = true) :
+    (stepOutcome p w fails missing σ i).st = .broken ∧ (stepOutcome p w fails missing σ i).ran = false := by
+  unfold stepOutcome
+  simp only [rc_never, hn, decide_false, Bool.false_eq_true, if_false, ha, if_true]
+  split <;> exact ⟨rfl, rfl⟩
 
 /-- Introduction: a step that is not `never`, whose dependency steps are all done, and for which the
     decision holds, is started. -/
 theorem ran_intro (p : Pipe) (w : World) (fails missing : Nat → Bool) (σ : Nat → St) (i : Nat)
     (hn : (p.step i).mode ≠ .never) (hd : upstreamDone σ (p.step i) = true)
+    (hp : ownAbsent w (p.step i) = false)
     (h : thoroughChanged p w (p.step i) = true ∨ (p.step i).alwaysLike = true ∨ upstreamRan σ (p.step i) = true) :
     (stepOutcome p w fails missing σ i).ran = true := by
   unfold stepOutcome
   unfold upstreamDone at hd
   simp only [rc_never, hn, decide_false, Bool.false_eq_true, if_false, rc_ignoreMissing _ hn, Bool.not_true,
-    Bool.false_and, hd, Bool.true_or, if_true]
+    Bool.false_and, hd, Bool.true_or, if_true, hp]
   have : decideRun p w (p.step i) ((p.step i).upstream.any fun u => decide (σ u = .doneRun)) false = true := by
     rw [decideRun_iff, rc_always]
     rcases h with h | h | h
@@ -319,6 +344,13 @@ theorem run_world_recorded (p : Pipe) (w : World) (fails missing : Nat → Bool)
     · exact Or.inl rfl
   | false => rw [run_world_failed p w fails missing h]; exact Or.inl rfl
 
+/-- A run does not move files: what is absent stays absent, what is present stays present. -/
+theorem run_world_absent (p : Pipe) (w : World) (fails missing : Nat → Bool) :
+    (runPipeline p w fails missing).world.absent = w.absent := by
+  cases h : (runPipeline p w fails missing).allDone with
+  | true => rw [run_world_ok p w fails missing h]
+  | false => rw [run_world_failed p w fails missing h]
+
 theorem fresh_init : Fresh World.init := by
   constructor
   · intro d; simp [World.init]
@@ -355,6 +387,8 @@ theorem fresh_applyEv (p : Pipe) (w : World) (e : Ev) (h : Fresh w) : Fresh (app
     · intro d' r hr
       simp only [applyEv, bumpMeta] at hr ⊢
       have := h.recorded d' r hr; omega
+  | vanish d => exact ⟨h.actual, h.recorded⟩
+  | comeBack d => exact ⟨h.actual, h.recorded⟩
   | run fails missing =>
     simp only [applyEv]
     obtain ⟨ha, hc⟩ := run_world_actual p w fails missing
@@ -396,6 +430,8 @@ theorem editsVisible_applyEv (p : Pipe) (w : World) (e : Ev) (hf : Fresh w) (h :
       simp; omega
     · rw [upd_other _ _ _ _ hd] at hne ⊢
       exact h d' r hr hne
+  | vanish d => exact h
+  | comeBack d => exact h
   | run fails missing =>
     intro d r hr hne
     simp only [applyEv] at hr hne ⊢
